@@ -28,6 +28,12 @@ WEIRD = [
 ]
 
 
+# what harness/src/main.rs registers under cfg "probes" / "contrib"
+PROBE_FILTERS = ["wrap", "wrap_safe", "viacall", "errkind", "read_ctx"]
+PROBE_FUNCTIONS = ["mk", "mk_safe", "p"]
+CONTRIB_FILTERS = ["b64_encode", "b64_decode", "urlencode", "urlencode_strict", "json_encode", "slug"]
+
+
 def free_names(tpls):
     names = set()
     for _, src in tpls:
@@ -70,10 +76,18 @@ def run(tier):
         if not b[0].get("ok"):
             continue
         blocks, comps = [], []
+        # what the references of this job's chunks may resolve to (RefsResolved): the names the harness registered for the job
+        # on top of the built-ins of Sigs.tla, and the job's own templates, blocks and components as the listing shows them
+        cfgj = j.get("cfg", {})
+        known = {"filters": (PROBE_FILTERS if cfgj.get("probes") else []) + (CONTRIB_FILTERS if cfgj.get("contrib") else []),
+                 "tests": [], "functions": PROBE_FUNCTIONS if cfgj.get("probes") else [],
+                 "templates": sorted(set(y["tpl"] for y in b[1]["listing"])),
+                 "blocks": sorted(set(y["kind"][6:] for y in b[1]["listing"] if y["kind"].startswith("block:"))),
+                 "components": sorted(set(y["kind"][10:] for y in b[1]["listing"] if y["kind"].startswith("component:")))}
         for y in b[1]["listing"]:
             for code in (y["code"], y["pre"]):
-                key = json.dumps(code, sort_keys=True)
-                chunks.setdefault(key, {"tpl": y["tpl"], "kind": y["kind"], "h": y["h"], "code": code, "src": j.get("src")})
+                key = json.dumps([code, known], sort_keys=True)
+                chunks.setdefault(key, {"tpl": y["tpl"], "kind": y["kind"], "h": y["h"], "code": code, "src": j.get("src"), "known": known})
             if y["kind"].startswith("block:"):
                 blocks.append((y["tpl"], y["kind"][6:]))
             if y["kind"].startswith("component:"):
@@ -83,7 +97,7 @@ def run(tier):
     cp = os.path.join(work, "chunks.ndjson")
     with open(cp, "w") as f:
         for ch in clist:
-            f.write(json.dumps({"code": ch["code"], "h": ch["h"], "tpl": ch["tpl"], "kind": ch["kind"]}) + "\n")
+            f.write(json.dumps({"code": ch["code"], "h": ch["h"], "tpl": ch["tpl"], "kind": ch["kind"], "known": ch["known"]}) + "\n")
     r = vp.tlc("MC_TeraVM", "MC_TeraVM", env={"CHUNKS": cp}, timeout=1800, allow_fail=True, name="c07-mc", coverage=False)
     C.add_tlc(r, "MC_TeraVM on %d distinct real chunks (%d instructions)" % (len(clist), sum(len(c["code"]) for c in clist)))
     C.cov["chunks_model_checked"] = len(clist)
